@@ -139,6 +139,8 @@ type FuncTr struct {
 	loopWarn   []string
 	calledTrack map[string]bool // callee names mentioned in called(...) of this contract
 	exitDef    map[*ssa.Alloc]bool // variables whose declaration is tracked for exit assertions
+	exitHit    map[int]bool        // exit assertions translated at some return
+	exitSkip   map[int]string      // exit assertions skipped at some return (identifier not in scope there)
 	trackDef   map[*ssa.Alloc]*LoopInfo // variables declared in the body of a loop with end assertions: defined-in-this-iteration flags
 	rfLoops    []*LoopInfo
 	recvTy     types.Type
@@ -850,6 +852,13 @@ func verifyFuncPass(w *World, fn *ssa.Function, c *Contract, eager map[string]bo
 		// (reported as undecided; the function's other obligations are still checked)
 		for _, lw := range ft.loopWarn {
 			res.Warn = append(res.Warn, fmt.Sprintf("%s: %s", fn.String(), lw))
+		}
+		// an exit assertion whose identifiers are in scope at no return at all was never checked (a renamed or removed
+		// local): a hole, not a pass
+		for i, ex := range c.Exits {
+			if !ft.exitHit[i] && ft.exitSkip[i] != "" {
+				res.Warn = append(res.Warn, fmt.Sprintf("%s: exit assert [%s] (%s:%d) could be checked at no return: %s", fn.String(), ex.Name, ex.File, ex.Line, ft.exitSkip[i]))
+			}
 		}
 		for i, b := range c.Binds {
 			if !ft.bindHit[i] {
